@@ -61,6 +61,19 @@ func (x *Exec) libCall(fr *Frame, st *State, key string, callee *ssa.Function, a
 		x.assume("true", and("(> "+r.S+" 0)", "(errPlain "+r.S+")"))
 		x.trust("errors.New returns a non-nil error that matches only itself")
 		return r, true
+	case "github.com/pkg/errors.New", "github.com/pkg/errors.Errorf":
+		x.errPrelude()
+		r := x.freshOfType(st, rt, "err")
+		x.assume("true", "(> "+r.S+" 0)")
+		x.trust("github.com/pkg/errors New/Errorf return a non-nil error")
+		return r, true
+	case "github.com/pkg/errors.Wrap", "github.com/pkg/errors.Wrapf", "github.com/pkg/errors.WithStack", "github.com/pkg/errors.WithMessage":
+		// nil in, nil out; otherwise a non-nil error
+		x.errPrelude()
+		r := x.freshOfType(st, rt, "err")
+		x.assume("true", "(= (= "+r.S+" 0) (= "+args[0].S+" 0))")
+		x.trust("github.com/pkg/errors Wrap* return nil exactly for a nil error")
+		return r, true
 	case "fmt.Errorf":
 		x.errPrelude()
 		r := x.freshOfType(st, rt, "err")
